@@ -39,7 +39,7 @@ ASSUMPTIONS = [
     "returned verdict/value may differ from the truth",
 ]
 TIERS = {
-    "quick": {"runs": 20000, "budget_s": 70},
+    "quick": {"runs": 16000, "budget_s": 75},
     "thorough": {"runs": 900000, "budget_s": 900},
 }
 
